@@ -153,7 +153,15 @@ func runC16(c c16Case) (*Violation, string) {
 		}
 	}
 	// every server-side handler must finish: a reverse call into a vanished client returns an error instead of blocking
-	deadline := time.Now().Add(5 * time.Second)
+	allow := 5 * time.Second
+	for _, cc := range c.Calls {
+		if cc.Burst > 0 {
+			// dozens of megabyte-sized arguments have to be marshalled before those reverse calls even reach the
+			// connection; under the race detector on a saturated machine that alone can take seconds
+			allow = 20 * time.Second
+		}
+	}
+	deadline := time.Now().Add(allow)
 	for i, p := range ps {
 		if cc := c.Calls[i]; cutConn >= 0 && cc.Slow && cc.Client%len(clients) != cutConn {
 			continue // blocked in a healthy client's slow handler by design; released at teardown
@@ -164,7 +172,7 @@ func runC16(c c16Case) (*Violation, string) {
 		if rig.W.Running(p.Tok) {
 			cc := c.Calls[i]
 			if cutConn >= 0 && cc.Client%len(clients) == cutConn {
-				return violf("reverse-call-blocks-after-loss", "handler of %s (client %d, whose link was cut: %+v) is still blocked in a reverse call after 5s", p.Tok, cc.Client, c.Cut), ""
+				return violf("reverse-call-blocks-after-loss", "handler of %s (client %d, whose link was cut: %+v) is still blocked in a reverse call after %v", p.Tok, cc.Client, c.Cut, allow), ""
 			}
 			if cutConn >= 0 && cc.Slow {
 				continue // blocked in a healthy client's slow handler by design; released at teardown
